@@ -989,7 +989,8 @@ def translate_shift(src_root):
 
 
 # ================================================================================================ design matrices (COO index vectors)
-_DESIGN_SCALARS = {"nt": "nt", "nx": "nx", "nm": "nm", "nta": "nta", "ix_sec_ta_ix0": "ix0"}
+_DESIGN_SCALARS = {"nt": "nt", "nx": "nx", "nm": "nm", "nta": "nta", "ix_sec_ta_ix0": "ix0", "ix_ta_ix0": "ix0", "npair": "npair",
+                   "nx_nm": "n3"}
 
 
 class _Design:
@@ -1006,7 +1007,7 @@ class _Design:
 
     def _resolve(self, n):
         """substitute names by their latest assignment, except the scalar atoms"""
-        if isinstance(n, ast.Name) and n.id not in _DESIGN_SCALARS and n.id not in ("cal_ref", "x_sec", "ds_ms0", "ds_ms1") and n.id in self.env:
+        if isinstance(n, ast.Name) and n.id not in _DESIGN_SCALARS and n.id not in ("cal_ref", "x_sec", "ds_ms0", "ds_ms1", "hix", "tix", "ix_match_not_cal") and n.id in self.env:
             return self._resolve(self.env[n.id])
         if isinstance(n, ast.Name):
             return n
@@ -1148,6 +1149,96 @@ def _dz_ix0(chain, xs_name, where):
         raise Untranslatable(f"{where}: third branch tests `{ast.unparse(c3)}`")
     return (f"  if {t1} then xs.size\n  else if {t2} then 0\n"
             f"  else ((List.range xs.size).find? (fun k => xs.getD k 0 {cmpop[type(c3.ops[0])]} s)).getD xs.size")
+
+
+def _dz_rdata(n, where):
+    """float data vector built from index comparisons: np.repeat / + / unary - / `/ 2` / np.array(<idx> >= ix0, dtype=float)"""
+    if isinstance(n, ast.Call) and ast.unparse(n.func) == "np.repeat" and len(n.args) == 2:
+        return f"(repeatEach {_dz_rdata(n.args[0], where)} {_dz_scalar(n.args[1], where)})"
+    if isinstance(n, ast.BinOp) and isinstance(n.op, ast.Add):
+        return f"(addR {_dz_rdata(n.left, where)} {_dz_rdata(n.right, where)})"
+    if isinstance(n, ast.UnaryOp) and isinstance(n.op, ast.USub):
+        return f"(negR {_dz_rdata(n.operand, where)})"
+    if isinstance(n, ast.BinOp) and isinstance(n.op, ast.Div) and isinstance(n.right, ast.Constant) and n.right.value == 2:
+        return f"(halfR {_dz_rdata(n.left, where)})"
+    if isinstance(n, ast.Call) and ast.unparse(n.func) == "np.array" and len(n.args) == 1 and isinstance(n.args[0], ast.Compare) \
+            and [ast.unparse(k.value) for k in n.keywords if k.arg == "dtype"] == ["float"]:
+        c = n.args[0]
+        idx = {"hix": "hix", "tix": "tix", "ix_match_not_cal": "ix3"}.get(ast.unparse(c.left))
+        if idx and len(c.ops) == 1 and isinstance(c.ops[0], (ast.GtE, ast.Lt)) and ast.unparse(c.comparators[0]) == "ix_ta_ix0":
+            return f"({'geInd' if isinstance(c.ops[0], ast.GtE) else 'ltInd'} {idx} ix0)"
+    raise Untranslatable(f"{where}: data expression outside the fragment: {ast.unparse(n)[:90]}")
+
+
+def _dz_unmask(n, where):
+    """`E[E'.astype(bool)]` -> (E, text of the mask source E')"""
+    if isinstance(n, ast.Subscript) and isinstance(n.slice, ast.Call) and isinstance(n.slice.func, ast.Attribute) \
+            and n.slice.func.attr == "astype" and [ast.unparse(a) for a in n.slice.args] == ["bool"]:
+        return n.value, ast.unparse(n.slice.func.value)
+    raise Untranslatable(f"{where}: `{ast.unparse(n)[:70]}` is not an array masked by its non-zero data")
+
+
+def _translate_match_ta(fns, L):
+    """the splice coefficients of EQ1, EQ2, EQ3 in `construct_submatrices_matching_sections`"""
+    w = "construct_submatrices_matching_sections"
+    D = _Design(fns[w], w)
+    for k, v in (("npair", "len(hix)"), ("nx_nm", "ix_match_not_cal_sec2.size"),
+                 ("ix_match_not_cal", "np.array([ix for ix in ix_cal_match if ix not in ix_sec])"),
+                 ("ix_cal_match", "np.unique(np.concatenate((ix_sec, hix, tix)))")):
+        if ast.unparse(D.env.get(k, ast.Constant(None))) != v:
+            raise Untranslatable(f"{w}: `{k}` is no longer `{v}`")
+    src = ast.unparse(fns[w]).replace("'", '"')
+    for piece in ("Z_TA_eq1 = sp.hstack(TA_eq1_list)", "Z_TA_eq2 = sp.hstack(TA_eq2_list)", "Z_TA_eq3 = sp.hstack(TA_eq3_list)",
+                  "for trans_atti in trans_att:"):
+        if piece not in src:
+            raise Untranslatable(f"{w}: `{piece}` is gone")
+
+    def single(target, data_model, col_model, n_name):
+        hits = [c for c in D.coo if c[0] == target]
+        if len(hits) != 1:
+            raise Untranslatable(f"{w}: {len(hits)} blocks appended to {target}")
+        _, data, row, col, shape = hits[0]
+        d, md = _dz_unmask(data, w)
+        r, mr = _dz_unmask(row, w)
+        c, mc = _dz_unmask(col, w)
+        if not (md == mr == mc == ast.unparse(d)):
+            raise Untranslatable(f"{w}: data, row and column of {target} are not masked by the non-zero entries of the same data vector")
+        tag = target.replace("TA_", "").replace("_list", "")
+        args = "(hix tix : List Nat) (nt ix0 : Nat)"
+        L.append(f"def {tag}DataG {args} : List Rat := {_dz_rdata(d, w)}")
+        L.append(f"theorem {tag}DataG_eq {args} : {tag}DataG hix tix nt ix0 = {data_model} hix tix nt ix0 := rfl")
+        L.append(f"def {tag}RowG (nt {n_name} : Nat) : List Nat := {_dz_array(r, w)}")
+        L.append(f"theorem {tag}RowG_eq (nt {n_name} : Nat) : {tag}RowG nt {n_name} = mEqRow nt {n_name} := rfl")
+        L.append(f"def {tag}ColG (nt {n_name} : Nat) : List Nat := {_dz_array(c, w)}")
+        L.append(f"theorem {tag}ColG_eq (nt {n_name} : Nat) : {tag}ColG nt {n_name} = {col_model} nt {n_name} := rfl")
+        if ast.unparse(shape) != f"(nt * {'npair' if n_name == 'npair' else 'nx_nm'}, 2 * nt)":
+            raise Untranslatable(f"{w}: shape of {target} is {ast.unparse(shape)}")
+
+    single("TA_eq1_list", "mEq1Data", "mEqFCol", "npair")
+    single("TA_eq2_list", "mEq2Data", "mEqBCol", "npair")
+    hits = [c for c in D.coo if c[0] == "TA_eq3_list"]
+    if len(hits) != 1:
+        raise Untranslatable(f"{w}: {len(hits)} blocks appended to TA_eq3_list")
+    _, data, row, col, shape = hits[0]
+    parts = []
+    for n in (data, row, col):
+        if not (isinstance(n, ast.Call) and ast.unparse(n.func) == "np.concatenate" and len(n.args[0].elts) == 2):
+            raise Untranslatable(f"{w}: EQ3 block is not a concatenation of a forward and a backward part")
+        parts.append([_dz_unmask(e, w) for e in n.args[0].elts])
+    for k in (0, 1):
+        masks = {parts[j][k][1] for j in range(3)}
+        if masks != {ast.unparse(parts[0][k][0])}:
+            raise Untranslatable(f"{w}: EQ3 part {k}: data, row and column are not masked by the same data vector")
+    args = "(ix3 : List Nat) (nt ix0 : Nat)"
+    for k, (dm, cm, tag) in enumerate((("mEq3FData", "mEqFCol", "eq3F"), ("mEq3BData", "mEqBCol", "eq3B"))):
+        L.append(f"def {tag}DataG {args} : List Rat := {_dz_rdata(parts[0][k][0], w)}")
+        L.append(f"theorem {tag}DataG_eq {args} : {tag}DataG ix3 nt ix0 = {dm} ix3 nt ix0 := rfl")
+        L.append(f"def {tag}RowG (nt n3 : Nat) : List Nat := {_dz_array(parts[1][k][0], w)}")
+        L.append(f"theorem {tag}RowG_eq (nt n3 : Nat) : {tag}RowG nt n3 = mEqRow nt n3 := rfl")
+        L.append(f"def {tag}ColG (nt n3 : Nat) : List Nat := {_dz_array(parts[2][k][0], w)}")
+        L.append(f"theorem {tag}ColG_eq (nt n3 : Nat) : {tag}ColG nt n3 = {cm} nt n3 := rfl")
+    if ast.unparse(shape) != "(nt * nx_nm, 2 * nt)":
+        raise Untranslatable(f"{w}: shape of the EQ3 block is {ast.unparse(shape)}")
 
 
 def translate_design(src_root, which=("single", "double")):
@@ -1307,6 +1398,7 @@ def translate_design(src_root, which=("single", "double")):
         chain = ast.parse(text).body[0]
         L.append(f"def mIx0G (xs : Array Rat) (s : Rat) : Nat :=\n{_dz_ix0(chain, 'x', m)}")
         L.append("theorem mIx0G_eq (xs : Array Rat) (s : Rat) : mIx0G xs s = ix0Rule xs s := rfl")
+        _translate_match_ta(fns, L)
         info["double"] = sorted(c[0] for c in D.coo)
     L.append("\nend DtsVerif.GenDesign")
     return "\n".join(L) + "\n", info
